@@ -213,7 +213,12 @@ func buildDir(dir string) error {
 	if err := os.WriteFile(filepath.Join(dir, "subdir00", "inner.txt"), []byte("inner"), 0o600); err != nil {
 		return err
 	}
-	return os.Symlink("subdir00/inner.txt", filepath.Join(dir, "symlink0"))
+	for _, l := range linkTargets { // symlinks with target lengths 1, 16, 18 and 255 (output-size boundaries)
+		if err := os.Symlink(l.target, filepath.Join(dir, l.name)); err != nil {
+			return err
+		}
+	}
+	return nil
 }
 
 // fileIs reports whether path is a regular file with exactly this content (the size is checked
